@@ -10,7 +10,8 @@ from . import core
 
 TYPES = ["change", "append", "insert", "remove", "replace"]
 KIND_TYPES = {"obs": ["change"], "lst": ["remove", "replace", "change", "insert", "append"]}
-ERR = {ValueError: "err Value", KeyError: "err Key", IndexError: "err Index", AttributeError: "err Attr"}
+ERR = {ValueError: "err Value", KeyError: "err Key", IndexError: "err Index", AttributeError: "err Attr",
+       ZeroDivisionError: "err Zero"}     # err Zero: a Computed's function raised on its own (C17, `( fail )`)
 
 
 def _mesa():
